@@ -651,7 +651,7 @@ pub fn run(ctx: &Ctx) -> i32 {
     }
     let shapes_done = total.evaluations;
     // (b)
-    let depth = if ctx.quick() { 8 } else { 10 };
+    let depth = if ctx.quick() { 8 } else { 9 };
     let ops = all_ops();
     let mut prefixes: Vec<Vec<Op>> = Vec::new();
     for &a in &ops {
